@@ -61,6 +61,22 @@ Definition ctx_ok (y : style) (x : snapshot) : bool :=
   | _ => true
   end.
 
+(* 3b. The context of a member that has answered and was not chosen is cancelled - the first
+      answer when it is a failure, the second answer when both fail, the loser's, whichever
+      wrapper the call came through.  (A derived context that nobody cancels is what keeps a
+      goroutine parked for as long as the caller's context lives when that context is not one
+      of package context's own: clause 4 in that setting; the harness reads the context's state
+      from the goroutine profile there.)  The caller's own cancellation ends every context. *)
+Definition unchosen_ctx_ok (i : mem) (x : snapshot) : bool :=
+  implb (returned (om i x) && negb (chosen i x)) (ms_dead (om i x)).
+
+(* 3c. The context given to a member lives exactly as long as the protocol says: it ends by the
+      unifier's cancel or with the caller's context - it carries no deadline of its own.  (A
+      per-member timeout would end the chosen member's context while the returned reader is
+      still open, and would make a slow member fail although neither it nor the caller gave
+      up; the deadline is visible on the context at once, no need to wait for it.) *)
+Definition timer_ok (i : mem) (x : snapshot) : bool := negb (ms_timer (om i x)).
+
 (* 4. No goroutine remains blocked once both members have returned.  (Stronger, at every quiet
       moment: the goroutines alive are those inside a member call, plus the caller's while the
       call is still waiting for an answer.) *)
@@ -71,7 +87,9 @@ Definition goroutines_ok (x : snapshot) : bool :=
   && implb (returned (o_m0 x) && returned (o_m1 x)) (N.eqb (o_live x) 0).
 
 Definition snap_ok (y : style) (x : snapshot) : bool :=
-  result_ok x && reader_ok M0 x && reader_ok M1 x && ctx_ok y x && goroutines_ok x.
+  result_ok x && reader_ok M0 x && reader_ok M1 x && ctx_ok y x
+  && unchosen_ctx_ok M0 x && unchosen_ctx_ok M1 x && timer_ok M0 x && timer_ok M1 x
+  && goroutines_ok x.
 
 Fixpoint firsts_ok (prev : option snapshot) (l : list snapshot) : bool :=
   match l with
